@@ -12,7 +12,10 @@ RULE = ('FASTA files generated from (header, sequence, line width) records; ever
         '(exhaustive for the small grid), library-built and supplied (faidx-style) index; non-trivial = some record '
         'spans more than one line, or an interval endpoint lies on/next to a line break; plus files of 3..8 records indexed by '
         'create_index with the reader asked for chunks of 1..size+1 bytes (three or more chunks), and one file of more than '
-        '10 MB indexed with the library\'s own 5,000,000-byte chunks (checked from the shapes of its records)')
+        '10 MB indexed with the library\'s own 5,000,000-byte chunks (checked from the shapes of its records); every contig fetched '
+        'and kept before any is looked at; Genome route with whole contigs, with sub-intervals in a rotated row order, and with '
+        'plain-text interval tables on a genome opened with the default (underscore-ignoring) filter; the same path rewritten with '
+        'the records reversed and re-opened in the same process')
 EXHAUSTIVE = {'quick': False, 'thorough': False}
 TIE = 'translator+correspondence (Gen/C17.v regenerated from indexed_fasta.py, Bridge/C17.v; model_index, model_index_chunks over the C01 reader model, fetch_contig, fetch_interval evaluated in Coq on the file bytes; create_index offset accumulation regenerated as gen_ci_offsets / gen_ci_shift)'
 ASSUMPTIONS = ['A-IO: file.seek/read/readinto on a regular file return the requested bytes',
